@@ -6,6 +6,7 @@ Property theorems about the model `Iodata/Model/Overlap.lean` (the same definiti
 The obligations over the generated Cartesian→pure tables are in `Props/C06Tables.lean`.
 -/
 import Iodata.Lemmas.Overlap
+import Iodata.Lemmas.OverlapIntegral
 
 set_option linter.unusedSectionVars false
 set_option linter.unusedSimpArgs false
@@ -129,22 +130,6 @@ theorem pairTerm_exchange (pd : PairData K) (ip iq : Nat) (n0 n1 : Nat × Nat ×
   simp only
   rw [kernel_symm n1.1 n0.1, kernel_symm n1.2.1 n0.2.1, kernel_symm n1.2.2 n0.2.2]
   ring
-
-theorem list_sum_comm {α β : Type} (l1 : List α) (l2 : List β) (f : α → β → K) :
-    (l1.map fun a => (l2.map fun b => f a b).sum).sum = (l2.map fun b => (l1.map fun a => f a b).sum).sum := by
-  induction l1 with
-  | nil => simp
-  | cons a t ih =>
-    simp only [List.map_cons, List.sum_cons, ih]
-    rw [← List.sum_map_add]
-
-theorem sum_filterMap {α β : Type} (l : List α) (g : α → Option β) (f : β → K) :
-    ((l.filterMap g).map f).sum = (l.map fun a => match g a with | some b => f b | none => 0).sum := by
-  induction l with
-  | nil => simp
-  | cons a t ih =>
-    simp only [List.filterMap_cons, List.map_cons, List.sum_cons]
-    cases h : g a <;> simp [ih]
 
 /-- **Exchange of the two shells**: element `(q, p)` of the Cartesian block computed for `(shell1, shell0)`
 equals element `(p, q)` of the block for `(shell0, shell1)` — for any contraction lengths, including the
@@ -272,16 +257,6 @@ theorem applyConv_entry (r0 r1 : List (Nat × Int)) (e : Nat → Nat → K) (i j
 theorem sgnMul_eq (s : Int) (x : K) (hs : s = 1 ∨ s = -1) : sgnMul s x = (s : K) * x := by
   rcases hs with h | h <;> subst h <;> simp [sgnMul]
 
-theorem finish_ok (p0r p1r : Except Iodata.Conv.Err (List (Nat × Int))) (raw : Nat → Nat → K) (M : List (List K))
-    (h : finish p0r p1r raw = .ok M) : ∃ p0 p1, p0r = .ok p0 ∧ p1r = .ok p1 ∧ M = applyConv p0 p1 raw sgnMul := by
-  unfold finish at h
-  cases p0r with
-  | error e => simp at h
-  | ok p0 =>
-    cases p1r with
-    | error e => simp at h
-    | ok p1 => simp at h; exact ⟨p0, p1, rfl, rfl, h.symm⟩
-
 /-- a successful `compute_overlap` is the raw matrix with the two convention conversions
 (`convert_conventions(obasis, OVERLAP_CONVENTIONS, reverse=True)`, i.e. `Conv.convBasis … true` of C10)
 applied to rows and columns; for a single basis the same conversion is used on both sides -/
@@ -356,4 +331,54 @@ theorem rejects_geometry_without_basis (ops : Ops K) (tfs : Nat → List (List K
   simp [computeOverlap, secondArgs, h0]
 
 end assembly
+
+/-! ### over the reals: the kernel IS the integral -/
+section real
+open Real MeasureTheory
+
+/-- **The 1-D kernel is the Gaussian overlap integral.** -/
+theorem kernel_eq_integral (a b A B : ℝ) (ha : 0 < a) (hb : 0 < b) (n1 n2 : ℕ) :
+    ∫ x : ℝ, (x - A) ^ n1 * (x - B) ^ n2 * exp (-a * (x - A) ^ 2 - b * (x - B) ^ 2)
+      = exp (-(a * b / (a + b)) * (A - B) ^ 2) * √(π / (a + b))
+          * kernel n1 n2 ((a * A + b * B) / (a + b) - A) ((a * A + b * B) / (a + b) - B) (2 * (a + b)) := by
+  have hp : 0 < a + b := add_pos ha hb
+  set P : ℝ := (a * A + b * B) / (a + b) with hPdef
+  rw [← integral_add_right_eq_self (fun x : ℝ => (x - A) ^ n1 * (x - B) ^ n2 * exp (-a * (x - A) ^ 2 - b * (x - B) ^ 2)) P]
+  have e : (fun x : ℝ => (x + P - A) ^ n1 * (x + P - B) ^ n2 * exp (-a * (x + P - A) ^ 2 - b * (x + P - B) ^ 2))
+      = fun x => exp (-(a * b / (a + b)) * (A - B) ^ 2)
+          * (((X + C (P - A)) ^ n1 * (X + C (P - B)) ^ n2 : ℝ[X]).eval x * exp (-(a + b) * x ^ 2)) := by
+    funext x
+    have hexp : -a * (x + P - A) ^ 2 - b * (x + P - B) ^ 2
+        = -(a * b / (a + b)) * (A - B) ^ 2 + -(a + b) * x ^ 2 := by
+      rw [hPdef]
+      field_simp
+      ring
+    rw [hexp, exp_add]
+    simp only [eval_mul, eval_pow, eval_add, eval_X, eval_C]
+    ring
+  rw [e, integral_const_mul, (integral_poly_gauss (a + b) hp _).2, kernel_eq_gaussL]
+  ring
+
+/-- The full statement for a pair of primitive Cartesian Gaussians in one dimension, centres `A`, `B`,
+exponents `a`, `b` — with the arguments exactly as `compute_overlap` passes them
+(`x1 = rn − r0`, `x2 = rn − r1`, `two_at = 2(a0 + a1)`); the prefactors are the 1-D parts of
+`exp(−a0 a1/at · |r0 − r1|²) · (π/at)^{3/2}`. -/
+theorem kernel_eq_integral_nonvacuous :
+    ∫ x : ℝ, (x - 0) ^ 0 * (x - 0) ^ 0 * exp (-1 * (x - 0) ^ 2 - 1 * (x - 0) ^ 2) = √(π / 2) := by
+  have h := kernel_eq_integral 1 1 0 0 one_pos one_pos 0 0
+  rw [h, Iodata.Props.C06.kernel_zero_zero]
+  norm_num
+
+/-- `π`-part of the normalisation: `(2α/π)^{3/2} · (π/(2α))^{3/2} = 1`. -/
+theorem normalisation_pi_part (α : ℝ) (hα : 0 < α) :
+    (2 * α / π) ^ ((3 : ℝ) / 2) * (π / (2 * α)) ^ ((3 : ℝ) / 2) = 1 := by
+  have h1 : 0 ≤ 2 * α / π := by positivity
+  have h2 : 0 ≤ π / (2 * α) := by positivity
+  rw [← Real.mul_rpow h1 h2]
+  have : 2 * α / π * (π / (2 * α)) = 1 := by
+    have := pi_pos
+    field_simp
+  rw [this, Real.one_rpow]
+
+end real
 end Iodata.Props.C06
